@@ -111,6 +111,17 @@ def run_tapped_case(ctx, kind_, idx):
             if via_weaver:
                 x = np.arange(n, dtype=float) * 0.5 + 3
                 wv = Weaver(x.copy(), ain)
+                if rng.integers(0, 2) and n >= 4 and not isinstance(snr, (list, np.ndarray)):
+                    # the signal power is that of the CURRENT series: noise after a random history
+                    from . import _weaver_ops as W
+                    info["history"] = W.random_history(rng, wv, 1, 3, allow=["shift_y", "scale_y", "shift_x", "repeat",
+                                                                              "append_one_sample", "truncate_by_index"],
+                                                       max_len=400)
+                    x, a = (np.array(v, dtype=float).copy() for v in wv.get())
+                    n = len(a)
+                    ain = np.array(a)
+                    a_before = np.array(a).copy()
+                    np.random.seed(npseed)
                 if snr is None:
                     wv.noise(None, **kw)
                 else:
